@@ -224,7 +224,8 @@ def gen_plug_case(rng, core):
         case['cfg_at'] = [rng.choice(LAYER3), 'GLOBAL' if cat == 'loader' else rng.choice(['GLOBAL', 'run'])]
     elif where == 'cmdline':
         opt = {'reporter': rng.choice(['-r', '--reporter']), 'backend': '--backend'}[cat]
-        case['argv'] = [opt, name] if rng.random() < 0.6 or opt == '-r' else [opt + '=' + name]
+        case['plug_argv'] = [opt, name] if rng.random() < 0.6 or opt == '-r' else [opt + '=' + name]
+        case['argv'] = list(case['plug_argv'])      # shown; the run uses plug_argv (the shrinker edits argv)
     return case
 
 
@@ -288,7 +289,7 @@ def impl_plug(case, workdir):
             try:
                 main = DoitMain(task_loader=None if cat == 'loader' else ModuleTaskLoader(ns),
                                 extra_config=extra or None)
-                code = main.run(['run'] + list(case['argv']))
+                code = main.run(['run'] + list(case.get('plug_argv') or []))
             except BaseException as ex:  # noqa
                 return {'pick': 'escapes', 'exc': type(ex).__name__, 'res': {'err': 'crash'}}
     finally:
